@@ -53,6 +53,9 @@ def _cost_fn(rng, kind):
         return lambda: int(rng.randint(0, 10 ** 6 + 1)) << S
     if kind == "dyadic":
         return lambda: int(rng.randint(0, 1 << 12)) << (S - 8)
+    if kind == "range":
+        # huge dynamic range: m * 2^e, e in -16..18 (multiples of 2^-16 below 2^20: every sum stays exact)
+        return lambda: int(rng.randint(0, 4)) << (S + int(rng.randint(-16, 19)))
     if kind == "fine":
         g = int(rng.choice([28, 30]))
         return lambda: (int(rng.randint(0, 3)) << S) + (int(rng.randint(0, 4)) << (S - g))
@@ -88,8 +91,13 @@ def _pattern(rng, n, pat):
     return pairs
 
 
+TRACK_DTYPES = ["int64", "int32", "int16", "int8", "uint8", "uint16", "uint32", "bool"]
+LAYOUTS2 = ["c", "f", "strided", "readonly"]
+COST_DTYPES = ["f8", "f8", "f4", "i8", "i4", "u2", "list"]        # what `costs` is handed over as
+INDEX_DTYPES = ["i8", "i4", "i2", "u4", "u8", "u1", "list"]       # what `i`, `j` are handed over as
+LAYOUTS1 = ["c", "strided", "readonly", "tuple"]
 PATTERNS = ["dense", "band", "bern0.1", "bern0.3", "bern0.6", "onecand", "distinct", "star", "ladder"]
-KINDS = ["ties", "small", "big", "dyadic", "fine"]
+KINDS = ["ties", "small", "big", "dyadic", "fine", "range"]
 
 
 def _lap_case(rng, n, pat, kind, k):
@@ -98,7 +106,18 @@ def _lap_case(rng, n, pat, kind, k):
     tri = [[r, c, cf()] for r, c in pairs]
     order = rng.permutation(len(tri))
     tri = [tri[t] for t in order]
-    return {"fn": "lap", "n": n, "k": k, "tri": tri, "pat": pat, "kind": kind}
+    c = {"fn": "lap", "n": n, "k": k, "tri": tri, "pat": pat, "kind": kind}
+    # how the arguments are handed over: dtype / layout of costs and of the index vectors
+    cdt = COST_DTYPES[int(rng.randint(len(COST_DTYPES)))]
+    if cdt == "f4" and any(t[2] % (1 << (S - 8)) or t[2] >= (1 << (S + 16)) for t in tri):
+        cdt = "f8"                   # not exactly representable in float32
+    if cdt in ("i8", "i4", "u2") and any(t[2] % (1 << S) for t in tri):
+        cdt = "f8"
+    if cdt == "i4" and any(t[2] >= (1 << (S + 31)) for t in tri) or cdt == "u2" and any(t[2] >= (1 << (S + 16)) for t in tri):
+        cdt = "i8"
+    idt = INDEX_DTYPES[int(rng.randint(len(INDEX_DTYPES)))]
+    c.update(cdt=cdt, idt=idt, lay=LAYOUTS1[int(rng.randint(len(LAYOUTS1)))])
+    return c
 
 
 def _corpus_cases():
@@ -152,9 +171,10 @@ def generate(ctx):
     for c in cases:
         if c["fn"] == "lap":
             ctx.count("lap:%s" % c.get("pat", "corpus")); ctx.count("cost:%s" % c.get("kind", "corpus"))
+            ctx.count("cdt:%s" % c.get("cdt", "list")); ctx.count("idt:%s" % c.get("idt", "list")); ctx.count("lay:%s" % c.get("lay", "c"))
             ctx.count("k=%d" % c["k"]); ctx.count("n<=%d" % (2 if c["n"] <= 2 else 6 if c["n"] <= 6 else 12 if c["n"] <= 12 else 40))
         else:
-            ctx.count("track:%s" % c.get("cls", "corpus"))
+            ctx.count("track:%s" % c.get("cls", "corpus")); ctx.count("track-dt:%s/%s" % (c.get("dt", "int64"), c.get("lay", "c")))
     return cases
 
 
@@ -231,12 +251,23 @@ def _track_cases(ctx):
             else:
                 b = _label_image(rng, h, w, int(rng.choice([0, 1, 2, 4, 7, 11])), int(rng.choice([2, 4, 9])))
                 cls = "unrelated"
-            if a.max() == 0 and b.max() > 0:
-                # run_tracking(no objects, some objects) raises ValueError in calculate_costs (candidate finding
-                # C01-T1 in findings/C01.json); excluded here so that the known state of the tree stays green
-                ctx.count("track:excluded-first-frame-empty(candidate C01-T1)")
-                continue
             cases.append({"fn": "track", "cls": cls, "a": a.tolist(), "b": b.tolist()})
+    # frames without objects: both empty, first empty (F11, fixed in /repo 2730541), second empty -> the empty map
+    for _ in range(ctx.n(9, 45)):
+        h, w = int(rng.randint(3, 40)), int(rng.randint(3, 40))
+        e = np.zeros((h, w), int)
+        o = _label_image(rng, h, w, int(rng.choice([1, 2, 5])), int(rng.choice([1, 2, 4])))
+        if o.max() == 0:
+            o[0, 0] = 1
+        for cls, a, b in (("both-empty", e, e), ("first-empty", e, o), ("second-empty", o, e)):
+            cases.append({"fn": "track", "cls": cls, "a": a.tolist(), "b": b.tolist()})
+    for c in cases:
+        c["dt"] = TRACK_DTYPES[int(rng.randint(len(TRACK_DTYPES)))]
+        c["lay"] = LAYOUTS2[int(rng.randint(len(LAYOUTS2)))]
+        if c["dt"] == "bool" and max(max(map(max, c["a"])), max(map(max, c["b"]))) > 1:
+            c["dt"] = "uint8"
+        if c["dt"] == "int8" and max(max(map(max, c["a"])), max(map(max, c["b"]))) > 127:
+            c["dt"] = "int16"
     return cases
 
 
@@ -257,6 +288,36 @@ def _enc(f):
     return [(num << S) // den]
 
 
+def _hand(vals, dt, lay):
+    """the Python object handed to the implementation: list / tuple / ndarray of a dtype, contiguous, a strided
+    view, or read-only"""
+    if dt == "list" and lay != "tuple":
+        return list(vals)
+    if lay == "tuple":
+        return tuple(vals)
+    a = np.array(vals, dtype=np.dtype(dt))
+    if lay == "strided":
+        base = np.zeros(2 * len(a) + 1, a.dtype)
+        base[1::2] = a
+        return base[1::2]
+    if lay == "readonly":
+        a.setflags(write=False)
+    return a
+
+
+def _hand2(img, dt, lay):
+    a = np.array(img, dtype=np.dtype(dt))
+    if lay == "f":
+        return np.asfortranarray(a)
+    if lay == "strided":
+        base = np.zeros((a.shape[0] * 2, a.shape[1] * 3 + 1), a.dtype)
+        base[::2, 1::3] = a
+        return base[::2, 1::3]
+    if lay == "readonly":
+        a.setflags(write=False)
+    return a
+
+
 def impl(case):
     if case["fn"] == "lap":
         from centrosome.lapjv import lapjv
@@ -265,8 +326,17 @@ def impl(case):
         c = [t[2] / float(1 << S) for t in tri]
         for t, f in zip(tri, c):
             assert int(f * (1 << S)) == t[2], "cost not exactly representable"
+        i = _hand(i, case.get("idt", "list"), case.get("lay", "c"))
+        j = _hand(j, case.get("idt", "list"), case.get("lay", "c"))
+        c = _hand(c, case.get("cdt", "list"), case.get("lay", "c"))
+        for t, f in zip(tri, c):
+            assert float(f) * (1 << S) == t[2], "cost changed by the hand-over dtype"
+        keep = [np.array(t, copy=True) if isinstance(t, np.ndarray) else t for t in (i, j, c)]
         x, y, u, v = lapjv(i, j, c, wants_dual_variables=True, augmenting_row_reductions=case["k"])
         x2, y2 = lapjv(i, j, c, augmenting_row_reductions=case["k"])
+        for a_, b_ in zip(keep, (i, j, c)):
+            if isinstance(a_, np.ndarray) and not np.array_equal(a_, b_):
+                return {"exc": "InputModified", "msg": "lapjv modified one of its argument arrays"}
         return {"x": [int(t) for t in x], "y": [int(t) for t in y], "u": [_enc(t) for t in u], "v": [_enc(t) for t in v],
                 "same_without_duals": bool(list(x2) == list(x) and list(y2) == list(y))}
     # tracker: record every call of the solver made by the tracker, and the matrix it was built from
@@ -301,14 +371,18 @@ def impl(case):
     LM.lapjv = rec
     T.NeighbourMovementTracking.solve_assignement = solve
     try:
-        a = np.array(case["a"], int); b = np.array(case["b"], int)
+        a = _hand2(case["a"], case.get("dt", "int64"), case.get("lay", "c"))
+        b = _hand2(case["b"], case.get("dt", "int64"), case.get("lay", "c"))
+        a0, b0 = a.copy(), b.copy()
         tr = T.NeighbourMovementTracking()
         res = tr.run_tracking(a, b)
+        if not (np.array_equal(a, a0) and np.array_equal(b, b0)):
+            sparse_bad.append("run_tracking modified a label image")
     finally:
         LM.lapjv = orig
         T.NeighbourMovementTracking.solve_assignement = orig_solve
-    labs1 = [int(l) for l in np.unique(a) if l != 0]
-    labs2 = [int(l) for l in np.unique(b) if l != 0]
+    labs1 = [int(l) for l in np.unique(a.astype(int)) if l != 0]
+    labs2 = [int(l) for l in np.unique(b.astype(int)) if l != 0]
     last = {k: calls[-1][k] for k in ("x", "y")} if calls else None
     return {"pairs": [[int(p), int(q)] for p, q in res], "labs1": labs1, "labs2": labs2, "ncalls": len(calls),
             "last": last, "sparse_bad": sparse_bad[:3],
@@ -565,6 +639,8 @@ def check(ctx, cases, outs):
             res[k] = "tracker: " + o["sparse_bad"][0]
         elif any(p not in o["labs1"] or q not in o["labs2"] for p, q in o["pairs"]):
             res[k] = "tracker pairs mention labels absent from the frames"
+        elif (not o["labs1"] or not o["labs2"]) and o["pairs"] != []:
+            res[k] = "a frame without objects must give the empty map, got %s" % (o["pairs"][:10],)
         elif cases[k].get("cls") == "identical" and sorted(o["pairs"]) != [[l, l] for l in o["labs1"]]:
             res[k] = "unchanged frame: tracker result %s is not the identity on %s" % (o["pairs"][:10], o["labs1"][:10])
     for k, r in zip(pm_own, pms):
